@@ -119,3 +119,9 @@ def run(eng, tier):
         'trusted_base': ['interpreter models (loops unrolled to 3 iterations; per-iteration structure checked)', 'HashSet::is_subset / Map::is_empty semantics'],
         'not_decided': ['the fee actually charged on later matches is the composition with C09 (rate source), not re-checked over histories'], 'assumptions': [],
     }
+
+import probes as _pb
+PROBES = [
+    _pb.drop_facts('execute', 'ModifyContract', 'storage_is_empty'),
+    _pb.drop_write('execute', 'ModifyContract', 'contract_info'),
+]
